@@ -24,7 +24,7 @@ Valid(h) == IF h.ver = "2" THEN h.wsver = "13" /\ h.method = "CONNECT"
 HS(o, a) == Req(o, a).c.hs
 
 PInit == [decision |-> Empty, sub |-> Empty, xh |-> Empty, denial |-> Empty, closer |-> Empty, ccode |-> Empty,
-          early |-> {}]
+          early |-> {}, appClose |-> Empty, srvClose |-> Empty, crossed |-> Empty]
 
 InSeq(x, s) == \E i \in 1..Len(s) : s[i] = x
 HasHdr(hs, n, v) == \E i \in 1..Len(hs) : hs[i][3] = n /\ hs[i][2] = v
@@ -47,8 +47,11 @@ Clauses(o, ev, o2, p) ==
                (IF s.msgs = 0 /\ ev.type # "websocket.connect" THEN <<F("connect-first", ev.type)>> ELSE <<>>)
             \o (IF ev.type = "websocket.disconnect"
                 THEN LET who == Get(p.closer, a, "") IN
-                     CASE who = "client" ->
+                     CASE who = "client" /\ ~Has(p.appClose, a) ->
                             IF ev.code = Get(p.ccode, a, 1005) THEN <<>> ELSE <<F("client-code", "")>>
+                       \* (the application closed as well, after the client's frame had been written: judged at the
+                       \*  end by the close frame the server put on the wire - see `crossed`)
+                       [] who = "client" -> <<>>
                        [] who = "app" -> IF ev.code = 1000 THEN <<>> ELSE <<F("own-1000", "")>>
                        [] who = "" /\ (o.gone \/ o.reset \/ o.tfail) /\ Get(p.decision, a, "") = "accept" ->
                             IF ev.code = 1006 THEN <<>> ELSE <<F("lost-1006", "")>>
@@ -90,7 +93,15 @@ Clauses(o, ev, o2, p) ==
                                  /\ (Wire(o, a).ends = 0 \/ Wire(o, a).bad > 0
                                      \/ Wire(o, a).got # (IF SuppressBody("GET", Get(p.denial, a, [status |-> 0]).status)
                                                           THEN 0 ELSE App(o, a).called))
+                \* crossing closes: the client's close frame was written first and the application closed too.  If the
+                \* only close frame the server sent is the echo of the client's code it was a client-initiated close
+                \* for the server as well, and the application is told that code; if the server sent the
+                \* application's own close, the orders differ by observer and either answer is accepted.
+                Crossed(a) == /\ o.final /\ Has(p.crossed, a) /\ Has(p.srvClose, a)
+                              /\ p.srvClose[a] = Get(p.ccode, a, 1005) /\ p.srvClose[a] # p.appClose[a]
+                              /\ p.crossed[a] # Get(p.ccode, a, 1005)
             IN (IF \E a \in DOMAIN o.reqs : BadNo400(a) THEN <<F("invalid-accepted", "no-400")>> ELSE <<>>)
+            \o (IF \E a \in DOMAIN p.crossed : Crossed(a) THEN <<F("client-code", "crossing-closes")>> ELSE <<>>)
             \o (IF \E a \in DOMAIN o.reqs : DenialBody(a) THEN <<F("denial-rendering", "body")>> ELSE <<>>)
       [] OTHER -> <<>>
 
@@ -104,6 +115,8 @@ PStep(p, o, ev, o2) ==
               [] mm.type = "websocket.close" /\ d = "" -> [p EXCEPT !.decision = Put(@, a, "close")]
               [] mm.type = "websocket.close" /\ d = "accept" /\ Get(p.closer, a, "") = "" ->
                     [p EXCEPT !.closer = Put(@, a, "app")]
+              [] mm.type = "websocket.close" /\ d = "accept" /\ ~Has(p.appClose, a) ->
+                    [p EXCEPT !.appClose = Put(@, a, IF Has(mm, "code") THEN mm.code ELSE 1000)]
               [] mm.type = "websocket.http.response.start" /\ d = "" ->
                     [p EXCEPT !.decision = Put(@, a, "denial"), !.denial = Put(@, a, [status |-> mm.status])]
               [] OTHER -> p
@@ -114,7 +127,11 @@ PStep(p, o, ev, o2) ==
                            !.ccode = Put(@, ev.app, IF ev.size < 0 THEN 1005 ELSE ev.size)]
             ELSE p
       [] ev.e = "wire" /\ ev.kind = "ws_close" ->
-            IF Get(p.closer, ev.app, "") = "" THEN [p EXCEPT !.closer = Put(@, ev.app, "server")] ELSE p
+            [p EXCEPT !.closer = IF Get(p.closer, ev.app, "") = "" THEN Put(@, ev.app, "server") ELSE @,
+                      !.srvClose = IF Has(p.srvClose, ev.app) THEN @ ELSE Put(@, ev.app, ev.code)]
+      [] ev.e = "app_recv" /\ ev.type = "websocket.disconnect" /\ Get(p.closer, ev.app, "") = "client"
+         /\ Has(p.appClose, ev.app) /\ ~Has(p.crossed, ev.app) ->
+            [p EXCEPT !.crossed = Put(@, ev.app, ev.code)]
       [] OTHER -> p
 
 MInit == [o |-> OInit, p |-> PInit, fails |-> <<>>]
